@@ -32,7 +32,7 @@ Definition slash : N := 47.
 Definition ends_slash (p : bytes) : bool := match rev p with x :: _ => x =? slash | [] => false end.
 Definition with_slash (p : bytes) : bytes := if ends_slash p then p else p ++ [slash].
 
-Definition c10_check (c : c10_case) : bool :=
+Definition c10_check_raw (c : c10_case) : bool :=
   match c with
   | KEnc k r out => beqb (encode k r) out
   | KDec ik out => dec_eqb (decode ik) out
@@ -47,6 +47,20 @@ Definition c10_check (c : c10_case) : bool :=
       beqb lo (encode (with_slash cfg) 0) && beqb hi (encode (prefix_end (with_slash cfg)) 0)
       && Bool.eqb (in_bounds lo hi (encode k r)) inside
   end.
+
+(* inputs the theorems speak about: revisions are 64-bit (the driver can emit nothing else; evaluated per case
+   so that every case that passes the check is covered by the soundness theorem with no side condition) *)
+Definition c10_validb (c : c10_case) : bool :=
+  match c with
+  | KRound _ r _ => r <? two64
+  | KCmp _ r1 _ r2 _ => (r1 <? two64) && (r2 <? two64)
+  | KEncl _ _ r _ => r <? two64
+  | KRange _ _ _ r _ => r <? two64
+  | KBord _ _ _ _ r _ => r <? two64
+  | _ => true
+  end.
+
+Definition c10_check (c : c10_case) : bool := c10_validb c && c10_check_raw c.
 
 (* The property, stated on the implementation's own outputs (no model call on the left side):
    round trip; key-then-revision order; prefix and range enclosure. Only meaningful on the
